@@ -230,3 +230,12 @@ func VerifSnapshot(builtinOnly bool) *VerifWorld {
 	}
 	return w
 }
+
+// VerifDeleteClass removes every TFrame entry of the given class (scratch classes of the harness).
+func VerifDeleteClass(class string) {
+	for k := range TFrame {
+		if k.targetClass == class {
+			delete(TFrame, k)
+		}
+	}
+}
